@@ -46,36 +46,50 @@ mod h {
     /// with has_unsafe == false: the trait name, optionally `(`..`)` with no space before `(`.
     /// For Hash / PartialEq every parameter other than `unsafe` is rejected earlier on a union, so the
     /// parenthesised part is empty.
-    fn two(name: &str) -> String { if kani::any() { name.to_string() } else { let mut t = name.to_string(); t.push_str("()"); t } }
+    /// rustc renders the empty list forms as `Name()`, `Name {}` and `Name []` (measured through the real macro)
+    fn two(name: &str) -> String {
+        let mut t = name.to_string();
+        let k: u8 = kani::any();
+        kani::assume(k < 4);
+        match k { 0 => {}, 1 => t.push_str("()"), 2 => t.push_str(" {}"), _ => t.push_str(" []") }
+        t
+    }
     #[kani::proof]
     #[kani::unwind(%(unw)d)]
     pub fn hash_builder_total() { let s = two("Hash"); let n = s.len(); let r = core_hash(s); assert!(r.len() > n); kani::cover!(true); }
     #[kani::proof]
     #[kani::unwind(%(unw)d)]
     pub fn partial_eq_builder_total() { let s = two("PartialEq"); let n = s.len(); let r = core_partial_eq(s); assert!(r.len() > n); kani::cover!(true); }
-    #[kani::proof]
-    #[kani::unwind(%(unw)d)]
-    pub fn debug_builder_total() {
-        // "Debug" | "Debug(" tail ")" with an arbitrary ASCII tail of 0..=%(tail)d bytes
-        let mut v: Vec<u8> = vec![b'D', b'e', b'b', b'u', b'g'];
+    fn debug_with(open: &[u8], close: u8) {
+        // "Debug" | "Debug" open tail close, with an arbitrary ASCII tail of 0..=%(tail)d bytes
+        let mut v: Vec<u8> = Vec::with_capacity(64);
+        v.extend_from_slice(b"Debug");
         if kani::any() {
-            v.push(b'(');
+            v.extend_from_slice(open);
             let n: usize = kani::any();
             kani::assume(n <= %(tail)d);
             let mut i = 0;
             while i < n { let b: u8 = kani::any(); kani::assume(b < 0x80); v.push(b); i += 1; }
-            v.push(b')');
+            v.push(close);
         }
         let n = v.len();
         let r = core_debug(ascii(v));
         assert!(r.len() > n);
         kani::cover!(true);
     }
-    /// vacuity guard: the harness really reaches the builders' panicking paths when the
-    /// precondition is dropped (must FAIL)
     #[kani::proof]
     #[kani::unwind(%(unw)d)]
-    pub fn canary_hash_builder_without_precondition() { let r = core_hash("Hashx".to_string()); kani::cover!(true); }
+    pub fn debug_builder_total_paren() { debug_with(b"(", b')') }
+    #[kani::proof]
+    #[kani::unwind(%(unw)d)]
+    pub fn debug_builder_total_brace() { debug_with(b" {", b'}') }
+    #[kani::proof]
+    #[kani::unwind(%(unw)d)]
+    pub fn debug_builder_total_bracket() { debug_with(b" [", b']') }
+    /// vacuity guard: a wrong claim about the same extracted builder must FAIL
+    #[kani::proof]
+    #[kani::unwind(%(unw)d)]
+    pub fn canary_hash_builder_wrong_contract() { let r = core_hash(two("Hash")); assert!(r.len() == 4, "must fail: the builder always appends the suggestion"); kani::cover!(true); }
 }
 '''
 
@@ -160,15 +174,17 @@ def run(prop, tier, seed, args):
     os.makedirs(os.path.join(work, "k", ".cargo"), exist_ok=True)
     with open(os.path.join(work, "k", ".cargo", "config.toml"), "w") as f:
         f.write("[net]\noffline = true\n")
-    rc, out, err, dt = famlib.sh(["cargo", "kani", "-j", "4", "--output-format", "terse"], os.path.join(work, "k"), timeout=3600)
+    rc, out, err, dt = famlib.sh(["cargo", "kani", "-j", "6", "--output-format", "terse"], os.path.join(work, "k"), timeout=3600)
     open(os.path.join(work, "kani.log"), "w").write(out + "\n====\n" + err)
     res = runlib.parse_kani(out + "\n" + err)
     kstats = {"harnesses": 0, "verified": 0, "cbmc_s": 0.0, "wall_s": round(dt, 1)}
     bound = "ASCII strings: trait name + optional parenthesised tail of <= %d bytes (unwind %d)" % (MAXTAIL, unw)
     for h, oname, contract, b in (
-            ("h::hash_builder_total", "C17/hash_panic/union_without_unsafe/total", "no panic for s in {Hash, Hash()}", "exhaustive under the call-site precondition (2 strings)"),
-            ("h::partial_eq_builder_total", "C17/partial_eq_panic/union_without_unsafe/total", "no panic for s in {PartialEq, PartialEq()}", "exhaustive under the call-site precondition (2 strings)"),
-            ("h::debug_builder_total", "C17/debug_panic/union_without_unsafe/total", "no panic for s = Debug | Debug(<ascii tail>)", bound)):
+            ("h::hash_builder_total", "C17/hash_panic/union_without_unsafe/total", "no panic for s in {Hash, Hash(), Hash {}, Hash []}", "exhaustive under the call-site precondition (4 strings)"),
+            ("h::partial_eq_builder_total", "C17/partial_eq_panic/union_without_unsafe/total", "no panic for s in {PartialEq, PartialEq(), PartialEq {}, PartialEq []}", "exhaustive under the call-site precondition (4 strings)"),
+            ("h::debug_builder_total_paren", "C17/debug_panic/union_without_unsafe/total(paren)", "no panic for s = Debug | Debug(<ascii tail>)", bound),
+            ("h::debug_builder_total_brace", "C17/debug_panic/union_without_unsafe/total(brace)", "no panic for s = Debug | Debug {<ascii tail>}", bound),
+            ("h::debug_builder_total_bracket", "C17/debug_panic/union_without_unsafe/total(bracket)", "no panic for s = Debug | Debug [<ascii tail>]", bound)):
         r = res.get(h)
         kstats["harnesses"] += 1
         if r is None:
@@ -185,8 +201,8 @@ def run(prop, tier, seed, args):
         else:
             st, detail = "failed", r.get("detail", "")
         results[oname] = {"status": st, "engine": "kani", "detail": detail, "contract": contract, "bounded": b}
-    r = res.get("h::canary_hash_builder_without_precondition")
-    canaries["kani:builder-without-precondition"] = "refuted" if (r and not r["ok"] and not r.get("tool_failure")) else "NOT refuted"
+    r = res.get("h::canary_hash_builder_wrong_contract")
+    canaries["kani:builder-wrong-contract"] = "refuted" if (r and not r["ok"] and not r.get("tool_failure")) else "NOT refuted"
     # ---- Verus (unbounded) on the selection arithmetic
     vpath = os.path.join(work, "select.rs")
     open(vpath, "w").write(VERUS_SELECT % {"expr": sel, "step": step})
@@ -248,7 +264,7 @@ def _replay_builder(work, oname, rec):
     os.makedirs(os.path.join(d, "src"), exist_ok=True)
     open(os.path.join(d, "Cargo.toml"), "w").write('[package]\nname = "c17r"\nversion = "0.0.0"\nedition = "2021"\n[dependencies]\neduce = { path = "%s" }\n[workspace]\n' % famlib.REPO)
     tried = []
-    for attr in ("%s" % trait, "%s()" % trait, "%s(name = false)" % trait if trait == "Debug" else "%s( )" % trait):
+    for attr in ("%s" % trait, "%s()" % trait, "%s{}" % trait, "%s[]" % trait, "%s(name = false)" % trait if trait == "Debug" else "%s( )" % trait):
         open(os.path.join(d, "src", "lib.rs"), "w").write("use educe::Educe;\n#[derive(Educe)]\n#[educe(%s)]\npub union U { a: u8, b: u8 }\n" % attr)
         rc, out, err, dt = famlib.sh(["cargo", "check", "--offline"], d, timeout=900)
         tried.append(attr)
